@@ -47,7 +47,9 @@ fn substituted(d: Dialect, sql: &str, values: &Values) -> Result<String, Stop> {
                 return fail(format!("placeholder-without-value/{}", d.name()), format!("{sql:?}: placeholder {} has no value (returned {})", t.tok.show(), values.0.len()));
             };
             out.push_str(&sql[last..t.start]);
-            out.push_str(&guard("value_to_string", || with_backend!(d, b => b.value_to_string(v)))?);
+            let literal = guard("value_to_string", || with_backend!(d, b => b.value_to_string(v)))?;
+            literal_denotes(d, v, &literal)?;
+            out.push_str(&literal);
             last = t.end;
         }
     }
@@ -56,6 +58,48 @@ fn substituted(d: Dialect, sql: &str, values: &Values) -> Result<String, Stop> {
         return fail(format!("placeholder-count/{}", d.name()), format!("{sql:?}: {k} placeholders, {} values", values.0.len()));
     }
     Ok(out)
+}
+
+/// The literal that replaces a placeholder must denote the bound value under the engine's lexical rules (decided here for text,
+/// characters and byte strings, whose literal forms differ between the backends; C03 explores them in depth).
+fn literal_denotes(d: Dialect, v: &Value, literal: &str) -> R {
+    let want_text: Option<String> = match v {
+        Value::String(Some(s)) => Some((**s).clone()),
+        Value::Char(Some(c)) => Some(c.to_string()),
+        _ => None,
+    };
+    let want_bytes: Option<&Vec<u8>> = match v {
+        Value::Bytes(Some(b)) => Some(&**b),
+        _ => None,
+    };
+    if want_text.is_none() && want_bytes.is_none() {
+        return Ok(());
+    }
+    // NUL has no representation outside MySQL: such values are outside the inline domain (C03)
+    if d != Dialect::Mysql && want_text.as_deref().map(|t| t.contains('\0')).unwrap_or(false) {
+        return Ok(());
+    }
+    let toks = match lex::lex(d, literal) {
+        Ok(t) => t,
+        Err(e) => return fail(format!("literal-does-not-lex/{}", d.name()), format!("value {v:?} is inlined as {literal:?}: {e:?}")),
+    };
+    let ok = match (toks.as_slice(), &want_text, want_bytes) {
+        ([t], Some(w), _) => matches!(&t.tok, Tok::Str(s) if s == w),
+        ([t], _, Some(w)) => match &t.tok {
+            Tok::Bytes(b) => b == w,
+            Tok::Str(s) if d == Dialect::Postgres => lex::pg_bytea_from_text(s).as_ref() == Some(w),
+            _ => false,
+        },
+        _ => false,
+    };
+    if ok {
+        Ok(())
+    } else {
+        fail(
+            format!("literal-denotes-another-value/{}/{}", d.name(), if want_bytes.is_some() { "bytes" } else { "text" }),
+            format!("value {v:?} is inlined as {literal:?}, which the engine reads as {}", lex::show(&toks)),
+        )
+    }
 }
 
 pub fn check(c: &Case, obs: &mut Obs) -> R {
